@@ -70,10 +70,12 @@ structure Machine where
   states : List StateDef
 deriving Repr, Inhabited
 
-/-- What `DotGraphMachine(x)` was given: the class, or an instance whose model stores `value`. -/
+/-- What `DotGraphMachine(x)` was given: the class, an instance whose model stores `value`, or an instance whose
+model holds no state yet (an async machine before its activation; D38 repaired). -/
 inductive Subject
   | cls
   | inst (value : String)
+  | unset
 deriving DecidableEq, Repr, Inhabited
 
 /-- The pieces of a state node's label. -/
@@ -193,6 +195,7 @@ def getGraph (m : Machine) (sub : Subject) : Except Err Graph :=
       match lookupValue m.states v with
       | none => .error .invalidStateValue
       | some c => .ok (build m ini (some c))
+    | .unset => .ok (build m ini none)
 
 /-! ## Rendering of the label strings (used by the driver; compared byte for byte) -/
 
